@@ -130,6 +130,10 @@ structure AbstractMol where
   bonds : List (Nat × Nat)
   deriving Repr, DecidableEq
 
+/-- association list lookup (first match) -/
+def assoc {κ ν : Type} [DecidableEq κ] (l : List (κ × ν)) (k : κ) : Option ν :=
+  (l.find? (fun p => p.1 = k)).map Prod.snd
+
 /-- value of a written number -/
 abbrev num (ds : Str) : Nat := digitsToNat ds
 def countOf : Option Str → Nat
@@ -164,8 +168,8 @@ def denote (a : Ast) : M AbstractMol :=
   else .ok {
     atoms := (sortedSyms a).zipIdx.map (fun si =>
       { symbol := si.1, z := atomicNumber si.1,
-        mass := (a.settings.lookup (si.2 + 1, Key.mass)).map Int.ofNat,
-        rad := (a.settings.lookup (si.2 + 1, Key.rad)).map Int.ofNat })
+        mass := (assoc a.settings (si.2 + 1, Key.mass)).map Int.ofNat,
+        rad := (assoc a.settings (si.2 + 1, Key.rad)).map Int.ofNat })
     bonds := a.bonds1.map (fun b => (b.1 - 1, b.2 - 1)) }
 
 /-- `{i, j}` is a listed bond -/
@@ -184,7 +188,7 @@ structure Represents (g : Graph) (mol : AbstractMol) : Prop where
     g.attr i "mass" = mol.atoms[i].mass.map Val.int ∧
     g.attr i "rad" = mol.atoms[i].rad.map Val.int ∧
     g.attr i "invariant_code" = some (Val.tup [.int mol.atoms[i].z, .int (mol.atoms[i].mass.getD 0), .int (mol.atoms[i].rad.getD 0)])
-  only : ∀ (i : Int) (k : String), g.attr i k ≠ none → k ∈ attrNames
+  noOther : ∀ (i : Int) (k : String), g.attr i k ≠ none → k ∈ attrNames
   bonds : ∀ i j : Int, j ∈ g.nbrs i ↔ mol.Bonded i j
   wf : g.WF
 
@@ -699,5 +703,336 @@ theorem walk_treeOf (env : DepEnv) (a : Ast) (hs : ∀ p ∈ a.formula, p.1 ∈ 
       simp only [List.cons_append, List.nil_append, PTree.walkList, PTree.walk, ok_bind, pure_eq_ok, d3, wa,
         Option.getD_some]
       cases List.foldlM blockStep s bs <;> rfl
+
+/-! ### the listener state after the walk -/
+
+def bondsOf (ts : List (Str × Str)) : List (Int × Int) := ts.map (fun t => ((num t.1 : Int) - 1, (num t.2 : Int) - 1))
+
+theorem fold_tupleStep (ts : List (Str × Str)) (st : L) :
+    ts.foldlM tupleStep st =
+      if ∃ t ∈ ts, num t.1 = num t.2 then .error TPE else .ok { st with _bonds := st._bonds ++ bondsOf ts } := by
+  induction ts generalizing st with
+  | nil => simp [bondsOf]
+  | cons t ts ih =>
+    simp only [List.foldlM_cons, tupleStep]
+    by_cases h : num t.1 = num t.2
+    · simp [h]
+    · have e : (∃ t' ∈ t :: ts, num t'.1 = num t'.2) ↔ (∃ t' ∈ ts, num t'.1 = num t'.2) := by simp [h]
+      simp only [h, if_false, ok_bind, ih, e, bondsOf, List.map_cons, List.append_assoc, List.singleton_append]
+
+/-- attribute settings with 0-based atom index, as the listener sees them -/
+def settings0 (bs : List (Str × List (Key × Str))) : List ((Int × Key) × Int) :=
+  bs.flatMap (fun b => b.2.map (fun kv => (((num b.1 : Int) - 1, kv.1), (num kv.2 : Int))))
+
+def setStep (d : Dict Int Attrs) (s : (Int × Key) × Int) : M (Dict Int Attrs) := addAttr d s.1.1 s.1.2 s.2
+
+theorem fold_blockStep (bs : List (Str × List (Key × Str))) (st : L) :
+    bs.foldlM blockStep st =
+      ((settings0 bs).foldlM setStep st._node_attributes >>= fun d => .ok { st with _node_attributes := d }) := by
+  have inner : ∀ (idx : Str) (kvs : List (Key × Str)) (st : L),
+      kvs.foldlM (propStep idx) st =
+        ((kvs.map (fun kv => (((num idx : Int) - 1, kv.1), (num kv.2 : Int)))).foldlM setStep st._node_attributes >>=
+          fun d => .ok { st with _node_attributes := d }) := by
+    intro idx kvs
+    induction kvs with
+    | nil => intro st; rfl
+    | cons kv kvs ih =>
+      intro st
+      simp only [List.foldlM_cons, List.map_cons, propStep, setStep]
+      cases addAttr st._node_attributes ((num idx : Int) - 1) kv.1 (num kv.2) with
+      | error e => rfl
+      | ok d => simp only [ok_bind]; rw [ih]
+  induction bs generalizing st with
+  | nil => rfl
+  | cons b bs ih =>
+    simp only [List.foldlM_cons, blockStep, settings0, List.flatMap_cons, List.foldlM_append, inner]
+    cases List.foldlM setStep st._node_attributes (b.2.map (fun kv => (((num b.1 : Int) - 1, kv.1), (num kv.2 : Int)))) with
+    | error e => rfl
+    | ok d => simp only [ok_bind]; rw [ih]; rfl
+
+theorem assoc_eq_lookup {κ ν : Type} [DecidableEq κ] (l : List (κ × ν)) (k : κ) : assoc l k = List.lookup k l := by
+  induction l with
+  | nil => rfl
+  | cons p l ih =>
+    obtain ⟨a, b⟩ := p
+    rw [lookup_cons', ← ih]
+    unfold assoc
+    by_cases h : a = k
+    · simp [h]
+    · have : ¬ k = a := fun e => h e.symm
+      simp [h, this]
+
+theorem Key.attr_inj {k k' : Key} (h : k.attr = k'.attr) : k = k' := by
+  cases k <;> cases k' <;> first | rfl | (exact absurd h (by decide))
+
+/-- what the dict of dicts `d` has to do with the list `P` of settings made so far -/
+structure AttrInv (d : Dict Int Attrs) (P : List ((Int × Key) × Int)) : Prop where
+  wf : d.WF
+  vwf : ∀ i a, d.get? i = some a → a.WF
+  get : ∀ i (k : Key), (d.get? i).bind (·.get? k.attr) = (assoc P (i, k)).map Val.int
+  onlyKeys : ∀ i a s, d.get? i = some a → a.get? s ≠ none → ∃ k : Key, s = k.attr
+  keys : ∀ i, i ∈ d.keys ↔ ∃ s ∈ P, s.1.1 = i
+
+theorem AttrInv.empty : AttrInv Dict.empty [] where
+  wf := Dict.WF_empty
+  vwf := by intro i a h; simp at h
+  get := by intro i k; simp [assoc]
+  onlyKeys := by intro i a s h; simp at h
+  keys := by intro i; simp
+
+theorem addAttr_inv (d : Dict Int Attrs) (P : List ((Int × Key) × Int)) (i : Int) (k : Key) (v : Int)
+    (hinv : AttrInv d P) :
+    ((i, k) ∈ P.map Prod.fst → addAttr d i k v = .error TPE) ∧
+    ((i, k) ∉ P.map Prod.fst → ∃ d', addAttr d i k v = .ok d' ∧ AttrInv d' (P ++ [((i, k), v)])) := by
+  have hsd : ∀ s, (Dict.getD d i (Dict.empty : Attrs)).get? s = (d.get? i).bind (·.get? s) := by
+    intro s; unfold Dict.getD; cases d.get? i <;> simp
+  have hsdwf : (Dict.getD d i (Dict.empty : Attrs)).WF := by
+    unfold Dict.getD
+    cases h : d.get? i with
+    | none => simp
+    | some a => exact hinv.vwf i a h
+  have hc : (Dict.getD d i (Dict.empty : Attrs)).contains k.attr = true ↔ (i, k) ∈ P.map Prod.fst := by
+    unfold Dict.contains
+    rw [hsd, hinv.get, Option.isSome_map, assoc_eq_lookup, lookup_isSome_iff]
+  constructor
+  · intro hm
+    simp [addAttr, hc.mpr hm]
+  · intro hm
+    have hc' : ¬ (Dict.getD d i (Dict.empty : Attrs)).contains k.attr = true := fun h => hm (hc.mp h)
+    refine ⟨(d.set i (Dict.getD d i Dict.empty)).set i ((Dict.getD d i Dict.empty).set k.attr (Val.int v)),
+      by simp [addAttr, hc'], ?_⟩
+    have hget : ∀ i', ((d.set i (Dict.getD d i Dict.empty)).set i ((Dict.getD d i Dict.empty).set k.attr (Val.int v))).get? i' =
+        if i' = i then some ((Dict.getD d i (Dict.empty : Attrs)).set k.attr (Val.int v)) else d.get? i' := by
+      intro i'
+      rw [Dict.get?_set]
+      split
+      · rfl
+      · rename_i h; rw [Dict.get?_set, if_neg h]
+    refine ⟨Dict.WF_set (Dict.WF_set hinv.wf _ _) _ _, ?_, ?_, ?_, ?_⟩
+    · intro i' a h
+      rw [hget] at h
+      split at h
+      · cases h; exact Dict.WF_set hsdwf _ _
+      · exact hinv.vwf i' a h
+    · intro i' k'
+      have hg := hinv.get i' k'
+      rw [hget, assoc_eq_lookup, lookup_append', ← assoc_eq_lookup, lookup_cons']
+      by_cases hi : i' = i
+      · subst hi
+        simp only [if_true, Option.bind_some, Dict.get?_set]
+        by_cases hk : k' = k
+        · subst hk
+          have : assoc P (i', k') = none := by rw [assoc_eq_lookup, lookup_eq_none_iff']; exact hm
+          simp [this]
+        · have : k'.attr ≠ k.attr := fun h => hk (Key.attr_inj h)
+          rw [if_neg this, hsd, hg]
+          simp [hk]
+      · rw [if_neg hi, hg]; simp [hi]
+    · intro i' a s h hs
+      rw [hget] at h
+      split at h
+      · cases h
+        rw [Dict.get?_set] at hs
+        split at hs
+        · exact ⟨k, by assumption⟩
+        · rw [hsd] at hs
+          cases hd : d.get? i with
+          | none => simp [hd] at hs
+          | some a' => rw [hd] at hs; exact hinv.onlyKeys i a' s hd hs
+      · exact hinv.onlyKeys i' a s h hs
+    · intro i'
+      rw [Dict.mem_keys_set, Dict.mem_keys_set, hinv.keys]
+      simp only [List.mem_append, List.mem_singleton]
+      constructor
+      · rintro (h | h | ⟨s, hs, rfl⟩)
+        · exact ⟨_, Or.inr rfl, h.symm⟩
+        · exact ⟨_, Or.inr rfl, h.symm⟩
+        · exact ⟨s, Or.inl hs, rfl⟩
+      · rintro ⟨s, hs | rfl, rfl⟩
+        · exact Or.inr (Or.inr ⟨s, hs, rfl⟩)
+        · exact Or.inl rfl
+
+theorem fold_setStep (Q P : List ((Int × Key) × Int)) (d : Dict Int Attrs) (hinv : AttrInv d P) :
+    (¬ ((P ++ Q).map Prod.fst).Nodup → (P.map Prod.fst).Nodup → Q.foldlM setStep d = .error TPE) ∧
+    (((P ++ Q).map Prod.fst).Nodup → ∃ d', Q.foldlM setStep d = .ok d' ∧ AttrInv d' (P ++ Q)) := by
+  induction Q generalizing P d with
+  | nil =>
+    simp only [List.append_nil]
+    exact ⟨fun h h' => absurd h' h, fun _ => ⟨d, rfl, hinv⟩⟩
+  | cons s Q ih =>
+    obtain ⟨⟨i, k⟩, v⟩ := s
+    have step := addAttr_inv d P i k v hinv
+    have eapp : P ++ ((i, k), v) :: Q = (P ++ [((i, k), v)]) ++ Q := by simp
+    simp only [List.foldlM_cons, setStep]
+    by_cases hm : (i, k) ∈ P.map Prod.fst
+    · constructor
+      · intro _ _; rw [step.1 hm]; rfl
+      · intro hnd
+        exfalso
+        simp only [List.map_append, List.map_cons] at hnd
+        rw [List.nodup_append] at hnd
+        exact hnd.2.2 _ hm _ (by simp) rfl
+    · obtain ⟨d', hd', hinv'⟩ := step.2 hm
+      rw [hd', eapp]
+      simp only [ok_bind]
+      have hP' : ((P ++ [((i, k), v)]).map Prod.fst).Nodup → True := fun _ => trivial
+      constructor
+      · intro hnd hP
+        refine (ih _ d' hinv').1 hnd ?_
+        simp only [List.map_append, List.map_cons, List.map_nil]
+        rw [List.nodup_append]
+        refine ⟨hP, by simp, ?_⟩
+        intro x hx y hy
+        simp at hy; subst hy
+        rintro rfl; exact hm hx
+      · intro hnd
+        exact (ih _ d' hinv').2 hnd
+
+
+def shift (p : Nat × Key) : Int × Key := ((p.1 : Int) - 1, p.2)
+theorem shift_inj : Function.Injective shift := by
+  rintro ⟨a, k⟩ ⟨b, k'⟩ h
+  simp only [shift, Prod.mk.injEq] at h
+  obtain ⟨h1, rfl⟩ := h
+  have : a = b := by omega
+  subst this; rfl
+
+theorem settings0_eq (a : Ast) :
+    settings0 a.blocks = a.settings.map (fun s => (shift s.1, (s.2 : Int))) := by
+  simp [settings0, Ast.settings, List.map_flatMap, shift, Function.comp_def]
+
+theorem settings0_keys (a : Ast) : (settings0 a.blocks).map Prod.fst = (a.settings.map Prod.fst).map shift := by
+  simp [settings0_eq]
+
+theorem settings0_nodup (a : Ast) : ((settings0 a.blocks).map Prod.fst).Nodup ↔ ¬ a.DupAttr := by
+  rw [settings0_keys, List.nodup_map_iff shift_inj, Ast.DupAttr, not_not]
+
+theorem selfBond_iff (a : Ast) : a.SelfBond ↔ ∃ t ∈ a.tuples, num t.1 = num t.2 := by
+  simp only [Ast.SelfBond, Ast.bonds1, List.mem_map]
+  constructor
+  · rintro ⟨b, ⟨t, ht, rfl⟩, h⟩; exact ⟨t, ht, h⟩
+  · rintro ⟨t, ht, h⟩; exact ⟨_, ⟨t, ht, rfl⟩, h⟩
+
+theorem walkSpec_error (a : Ast) (h : a.SelfBond ∨ a.DupAttr) : walkSpec a = .error TPE := by
+  unfold walkSpec
+  simp only [fold_tupleStep]
+  by_cases hs : a.SelfBond
+  · rw [if_pos ((selfBond_iff a).mp hs)]; rfl
+  · rw [if_neg (fun h' => hs ((selfBond_iff a).mpr h'))]
+    have hd : a.DupAttr := h.resolve_left hs
+    simp only [ok_bind, fold_blockStep]
+    have := (fold_setStep (settings0 a.blocks) [] Dict.empty AttrInv.empty).1
+      (by simpa [settings0_nodup] using hd) (by simp)
+    show (List.foldlM setStep Dict.empty (settings0 a.blocks) >>= _) = _
+    rw [this]; rfl
+
+theorem walkSpec_ok (a : Ast) (h1 : ¬ a.SelfBond) (h2 : ¬ a.DupAttr) :
+    ∃ D, walkSpec a = .ok { _atoms := (expand a.formula).map baseAttrs, _bonds := bondsOf a.tuples, _node_attributes := D } ∧
+      AttrInv D (settings0 a.blocks) := by
+  obtain ⟨D, hD, hinv⟩ := (fold_setStep (settings0 a.blocks) [] Dict.empty AttrInv.empty).2
+    (by simpa [settings0_nodup] using h2)
+  refine ⟨D, ?_, by simpa using hinv⟩
+  unfold walkSpec
+  simp only [fold_tupleStep]
+  rw [if_neg (fun h' => h1 ((selfBond_iff a).mpr h'))]
+  simp only [ok_bind, fold_blockStep]
+  show (List.foldlM setStep Dict.empty (settings0 a.blocks) >>= _) = _
+  rw [hD]; rfl
+
+/-! ### `to_graph` -/
+
+theorem _validate_atom_index_ok (env : DepEnv) (st : L) (idx : Int) :
+    TucanListenerImpl._validate_atom_index env st idx =
+      if idx < st._atoms.length then .ok () else .error TPE := by
+  unfold TucanListenerImpl._validate_atom_index
+  by_cases h : idx < st._atoms.length
+  · simp [pyGe, PyCmp.lt, POrd.lt, h]
+  · simp [pyGe, PyCmp.lt, POrd.lt, h, TPE]
+
+/-- a checking loop -/
+theorem forIn_check {α : Type} (xs : List α) (body : α → PUnit → M (ForInStep PUnit)) (good : α → Prop)
+    [DecidablePred good] (e : Err)
+    (h : ∀ x ∈ xs, body x PUnit.unit = if good x then .ok (ForInStep.yield PUnit.unit) else .error e) :
+    forIn xs PUnit.unit body = if ∀ x ∈ xs, good x then .ok PUnit.unit else .error e := by
+  induction xs with
+  | nil => simp
+  | cons x xs ih =>
+    simp only [List.forIn_cons, h x (by simp)]
+    by_cases hx : good x
+    · simp only [hx, if_true, ok_bind, ih (fun y hy => h y (by simp [hy]))]
+      simp [hx]
+    · simp [hx]
+
+/-- the dict `{i: h i for i in range(n)}` -/
+def tab (n : Nat) (h : Int → Attrs) : Dict Int Attrs := ⟨(range n).map (fun i => (i, h i))⟩
+
+theorem mem_range (n : Nat) (i : Int) : i ∈ range (n : Int) ↔ 0 ≤ i ∧ i < n := by
+  simp only [range, Int.toNat_natCast, List.mem_map, List.mem_range]
+  constructor
+  · rintro ⟨a, ha, rfl⟩; simp; omega
+  · rintro ⟨h0, h1⟩; exact ⟨i.toNat, by omega, by simp; omega⟩
+
+theorem tab_keys (n : Nat) (h : Int → Attrs) : (tab n h).keys = range n := by
+  simp [tab, Dict.keys, List.map_map, Function.comp_def]
+theorem tab_wf (n : Nat) (h : Int → Attrs) : (tab n h).WF := by
+  unfold Dict.WF; rw [tab_keys]; exact Graph.nodup_range _
+theorem tab_get? (n : Nat) (h : Int → Attrs) (i : Int) :
+    (tab n h).get? i = if i ∈ range (n : Int) then some (h i) else none := by
+  split
+  · rename_i hi
+    apply Dict.get?_of_mem_items (tab_wf n h)
+    simp only [tab, List.mem_map]; exact ⟨i, hi, rfl⟩
+  · rename_i hi
+    rw [Dict.get?_eq_none_iff, tab_keys]; exact hi
+theorem tab_set (n : Nat) (h : Int → Attrs) (i : Int) (v : Attrs) (hi : i ∈ range (n : Int)) :
+    (tab n h).set i v = tab n (Function.update h i v) := by
+  apply Dict.ext_keys_get? (Dict.WF_set (tab_wf n h) _ _)
+  · rw [Dict.keys_set_of_mem _ _ (by rw [tab_keys]; exact hi), tab_keys, tab_keys]
+  · intro k
+    rw [Dict.get?_set, tab_get?, tab_get?]
+    by_cases hk : k = i
+    · subst hk; simp [hi]
+    · simp [hk]
+
+/-- a loop that rewrites one entry of a `tab` per iteration, possibly rejecting -/
+theorem forIn_tab {α : Type} (n : Nat) (l : List α) (key : α → Int) (G : α → Attrs → Attrs)
+    (body : α → Dict Int Attrs → M (ForInStep (Dict Int Attrs))) (good : α → Prop) [DecidablePred good] (e : Err)
+    (hbody : ∀ x ∈ l, ∀ h, body x (tab n h) =
+      if good x then .ok (ForInStep.yield ((tab n h).set (key x) (G x (h (key x))))) else .error e)
+    (hk : ∀ x ∈ l, good x → key x ∈ range (n : Int)) (h : Int → Attrs) :
+    forIn l (tab n h) body =
+      if ∀ x ∈ l, good x then
+        .ok (tab n (l.foldl (fun h x => Function.update h (key x) (G x (h (key x)))) h))
+      else .error e := by
+  induction l generalizing h with
+  | nil => simp
+  | cons x l ih =>
+    simp only [List.forIn_cons, hbody x (by simp)]
+    by_cases hx : good x
+    · simp only [hx, if_true, ok_bind, tab_set n h _ _ (hk x (by simp) hx)]
+      rw [ih (fun y hy => hbody y (by simp [hy])) (fun y hy => hk y (by simp [hy]))]
+      simp [hx]
+    · simp [hx]
+
+theorem foldl_update_nodup {α : Type} (l : List α) (key : α → Int) (G : α → Attrs → Attrs)
+    (hn : (l.map key).Nodup) (h : Int → Attrs) (i : Int) :
+    (l.foldl (fun h x => Function.update h (key x) (G x (h (key x)))) h) i =
+      match l.find? (fun x => key x = i) with
+      | some x => G x (h i)
+      | none => h i := by
+  induction l generalizing h with
+  | nil => rfl
+  | cons x l ih =>
+    simp only [List.map_cons, List.nodup_cons] at hn
+    rw [List.foldl_cons, ih hn.2]
+    by_cases hx : key x = i
+    · subst hx
+      have : l.find? (fun y => key y = key x) = none := by
+        rw [List.find?_eq_none]; intro y hy; simp; intro he; exact hn.1 (he ▸ List.mem_map_of_mem hy)
+      simp [this]
+    · simp only [List.find?_cons, hx, decide_false]
+      cases l.find? (fun y => key y = i) with
+      | none => simp [Function.update, Ne.symm hx]
+      | some y => simp [Function.update, Ne.symm hx]
 
 end Contracts.Parser
